@@ -339,6 +339,8 @@ class Evaluator:
         if v is TOP:
             return self.decide(node, env)
         if isinstance(v, Obj):
+            if "__bool__" in v.attrs:
+                return bool(v.attrs["__bool__"])
             return self.decide(node, env)
         if isinstance(v, Sym):
             return True  # a non-empty label
@@ -722,6 +724,11 @@ class Evaluator:
                             return mm(self, [base], {}, node)
                         return self.call_function(FuncV(f2, f2.node, None, f2.module), [base], {}, node)
                     return BoundMethod(base, attr)
+                cls = self.P.classes.get(cq)
+                if cls is not None:
+                    for st in cls.body:
+                        if isinstance(st, ast.Assign) and any(isinstance(t, ast.Name) and t.id == attr for t in st.targets):
+                            return self.ev(st.value, Env({}, None, cq.split(":")[0]), None)
             return BoundMethod(base, attr)
         if base is TOP:
             return TOP
@@ -739,6 +746,11 @@ class Evaluator:
                     return ClassRef(q)
                 if modname in self.P.modules and attr in self.P.modules[modname].consts:
                     return _lift(self.P.modules[modname].consts[attr])
+            if base.path == "string":
+                import string as _string
+
+                if hasattr(_string, attr) and isinstance(getattr(_string, attr), str):
+                    return getattr(_string, attr)
             return ExtRef(base.path + "." + attr)
         if isinstance(base, ClassRef):
             q = f"{base.q}.{attr}"
@@ -1561,6 +1573,10 @@ class Evaluator:
             return bool(x)
         if name == "str" or name == "repr":
             x = args[0] if args else ""
+            if isinstance(x, Obj) and x.attrs.get("__class__"):
+                q = x.attrs["__class__"] + (".__str__" if name == "str" else ".__repr__")
+                if q in self.P.functions:
+                    return self.call_method(x, "__str__" if name == "str" else "__repr__", [], {}, node)
             if isinstance(x, str):
                 return x if name == "str" else repr(x)
             if isinstance(x, Sym):
